@@ -268,7 +268,7 @@ def _near_normaliser(ctx, prog, norm):
                 und += 1
     ctx.evaluations += holds + bad + und
     ctx.extra['near_normaliser_cells'] = {'width_deg': w / deg, 'holds': holds, 'definite_failures': bad, 'undecided': und}
-    ctx.require(holds + bad >= 0.5 * (holds + bad + und), 'E4 precision for the near-normaliser: %d of %d cells decided' % (holds + bad, holds + bad + und))
+    ctx.require(bad > 0 or holds + bad >= 0.5 * (holds + bad + und), 'E4 precision for the near-normaliser: %d of %d cells decided' % (holds + bad, holds + bad + und))
     ctx.floor('R04.3 decided cells', holds + bad, 2000)
     for i in range(20):
         ctx.nontrivial.add(('R04.3', 'cellgroup%d' % i))
